@@ -47,6 +47,23 @@ def merge (j : Json) : Except String Json := do
   let old := mergeDiagnosticsOld (pagesStore parsed) orphanDict (allKeys others) others
   pure (Json.mkObj [("merged", putMap m), ("filtered", putMap (filtered S m)), ("old", putMap old)])
 
+/-- request {ops: [{op:"set",out,src,ds} | {op:"orphan",k,ds} | {op:"del",k}], others, silence}: the history applied to a
+`PageDatabase`, then `merge_diagnostics(*others)` -/
+def store (j : Json) : Except String Json := do
+  let ops ← (← arr j "ops").toList.mapM (fun e => do
+    match ← str e "op" with
+    | "set" => pure (Op.set ⟨← str e "out", ← str e "src", ← getDs (← e.getObjVal? "ds")⟩)
+    | "orphan" => pure (Op.setOrphan (← str e "k") (← getDs (← e.getObjVal? "ds")))
+    | "del" => pure (Op.del (← str e "k"))
+    | x => throw s!"unknown store op {x}")
+  let others ← (← arr j "others").toList.mapM getMap
+  let S ← strs j "silence"
+  let st := Store.run ops
+  let m := mergeDiagnostics st.parsed st.orphan (allKeys others) others
+  pure (Json.mkObj [("merged", putMap m), ("filtered", putMap (filtered S m)),
+                    ("keys", Json.arr (st.parsed.map (fun o => Json.str o.out)).toArray),
+                    ("orphan_keys", Json.arr (st.orphan.map (fun e => Json.str e.1)).toArray)])
+
 def filter (j : Json) : Except String Json := do
   pure (Json.mkObj [("ds", putDs (filterDiagnostics (← strs j "silence") (← getDs (← field j "ds"))))])
 
@@ -84,6 +101,6 @@ def walkOp (j : Json) : Except String Json := do
   | none => pure (Json.mkObj [("exc", "IndexError")])
 
 def ops : List (String × (Json → Except String Json)) :=
-  [("c14.merge", merge), ("c14.filter", filter), ("c14.exit", exit), ("c14.streams", streams), ("c14.walk", walkOp)]
+  [("c14.merge", merge), ("c14.store", store), ("c14.filter", filter), ("c14.exit", exit), ("c14.streams", streams), ("c14.walk", walkOp)]
 
 end SnootyVerif.Drv.C14
